@@ -432,8 +432,9 @@ func (r *vSchedRun) apply(st vStep, ahead []vStep) bool {
 					others = append(others, x)
 				}
 			}
+			unk := s.liveOnUnknown(c)
 			s.procs[w][c] = true
-			s.ev(map[string]interface{}{"ev": "procstart", "c": c, "w": w, "others": others})
+			s.ev(map[string]interface{}{"ev": "procstart", "c": c, "w": w, "others": others, "unk": unk})
 		} else {
 			s.ev(map[string]interface{}{"ev": "startfailed", "c": c, "w": w})
 		}
